@@ -513,6 +513,9 @@ func (vc *VC) assumeAfterInline(st *State, fc *FuncContract, sig *types.Signatur
 // defaultCall: unconstrained result; when effects is true every heap location is havocked
 // (the callee is in scope of no contract), otherwise only memory reachable from pointer-like arguments.
 func (vc *VC) defaultCall(st *State, name string, fn *ssa.Function, args []Val, rt types.Type, effects bool) Val {
+	for _, a := range args {
+		vc.markEscaped(st, a)
+	}
 	// objects the callee allocates are older than anything allocated after the call and may be stored in what it writes
 	vc.bumpAlloc(st)
 	if effects {
@@ -669,8 +672,10 @@ func (vc *VC) havocArg(st *State, a Val, t types.Type, why string) {
 func (vc *VC) havocAll(st *State, why string) {
 	for _, name := range vc.reg.sorted() {
 		ki := vc.reg.m[name]
+		before := st.heapVar(ki)
 		st.heap[name] = Fresh("hv:"+name, ki.Sort)
 		st.touchKey(name)
+		st.restoreLocals(name, before)
 	}
 	vc.havocLog = append(vc.havocLog, "* ("+why+")")
 	vc.noteHavoc(st, "*")
@@ -776,6 +781,9 @@ func (vc *VC) applyContract(fx *FuncCtx, st *State, fc *FuncContract, sig *types
 	pkg := vc.prog.typesPkgOf(fc)
 	env := &SpecEnv{vc: vc, st: st, old: st, vars: map[string]*SV{}, pkg: pkg}
 	vc.bindParams(env, fc, sig, args)
+	for _, a := range args {
+		vc.markEscaped(st, a)
+	}
 	vc.callSeq[callee]++
 	k := vc.callSeq[callee]
 	if fc.External || fc.Flags["trusted"] || vc.prog.FindFunc(fc) == nil {
@@ -958,6 +966,13 @@ func (vc *VC) goStmt(fx *FuncCtx, fr *Frame, st *State, g *ssa.Go) {
 	// The spawned goroutine is not executed. Its possible writes are applied as a havoc at the
 	// spawn point; later interference is outside the model (listed as an assumption).
 	vc.used["goroutines: effects of a spawned function are havocked at the spawn point only"] = true
+	// everything the goroutine can see escapes
+	if !g.Call.IsInvoke() {
+		vc.markEscaped(st, vc.val(fx, fr, g.Call.Value))
+	}
+	for _, a := range g.Call.Args {
+		vc.markEscaped(st, vc.val(fx, fr, a))
+	}
 	var fn *ssa.Function
 	if !g.Call.IsInvoke() {
 		if f, ok := vc.val(fx, fr, g.Call.Value).(*FuncV); ok {
@@ -985,6 +1000,7 @@ func (vc *VC) send(fx *FuncCtx, fr *Frame, st *State, s *ssa.Send) {
 // ghostSend counts messages placed on a channel (ghost outbox): "sent:<chan type>"[ch] += 1 and
 // records the last value sent.
 func (vc *VC) ghostSend(st *State, ct types.Type, ch *Term, v Val, vt types.Type) {
+	vc.markEscaped(st, v)
 	key := "ghost:sent<" + chanKey(ct) + ">"
 	ki := vc.reg.get(key, 1, IntSort, nil)
 	h := st.heapVar(ki)
